@@ -434,17 +434,36 @@ class P11(object):
         return self.lib.C_Logout(s)
 
     # ---- objects
+    # The output handle variable of every object-making call is NOT zero on entry: it holds the handle of an object made
+    # earlier (alternately the newest and the oldest of the last four).  A correct library never looks at it; one that
+    # cleans up "the new object" through it after a failure destroys a bystander, which the projections then miss.
+    def _hvar(self):
+        rec = getattr(self, "_recent", None)
+        if rec is None:
+            rec = self._recent = []
+            self._hcalls = 0
+        self._hcalls += 1
+        seed = (rec[-1] if self._hcalls % 2 else rec[0]) if rec else 0
+        return ULONG(seed), seed
+
+    def _hout(self, rv, h, seed):
+        if rv == 0 and h.value:
+            self._recent.append(h.value)
+            del self._recent[:-4]
+            return h.value
+        return 0 if (rv != 0 and h.value == seed) else h.value
+
     def create_object(self, s, attrs):
         t = Template(attrs)
-        h = ULONG(0)
+        h, seed = self._hvar()
         rv = self.lib.C_CreateObject(s, t.ptr, t.n, C.byref(h))
-        return rv, h.value
+        return rv, self._hout(rv, h, seed)
 
     def copy_object(self, s, o, attrs):
         t = Template(attrs)
-        h = ULONG(0)
+        h, seed = self._hvar()
         rv = self.lib.C_CopyObject(s, o, t.arr, t.n, C.byref(h))   # non-NULL pointer also for an empty template
-        return rv, h.value
+        return rv, self._hout(rv, h, seed)
 
     def destroy_object(self, s, o):
         return self.lib.C_DestroyObject(s, o)
@@ -535,15 +554,16 @@ class P11(object):
     # ---- keys
     def generate_key(self, s, mech, attrs):
         t = Template(attrs)
-        h = ULONG(0)
+        h, seed = self._hvar()
         rv = self.lib.C_GenerateKey(s, mech.ptr, t.ptr, t.n, C.byref(h))
-        return rv, h.value
+        return rv, self._hout(rv, h, seed)
 
     def generate_key_pair(self, s, mech, pub, priv):
         t1, t2 = Template(pub), Template(priv)
-        h1, h2 = ULONG(0), ULONG(0)
+        h1, seed1 = self._hvar()
+        h2, seed2 = self._hvar()
         rv = self.lib.C_GenerateKeyPair(s, mech.ptr, t1.ptr, t1.n, t2.ptr, t2.n, C.byref(h1), C.byref(h2))
-        return rv, h1.value, h2.value
+        return rv, self._hout(rv, h1, seed1), self._hout(rv, h2, seed2)
 
     def wrap_key(self, s, mech, wk, key, bufsize="auto"):
         """bufsize: 'auto' = query then exact; None = query only; int = that buffer."""
@@ -565,16 +585,16 @@ class P11(object):
 
     def unwrap_key(self, s, mech, uk, blob, attrs):
         t = Template(attrs)
-        h = ULONG(0)
+        h, seed = self._hvar()
         bb = buf_ptr(blob)
         rv = self.lib.C_UnwrapKey(s, mech.ptr, uk, bb, len(blob), t.ptr, t.n, C.byref(h))
-        return rv, h.value
+        return rv, self._hout(rv, h, seed)
 
     def derive_key(self, s, mech, base, attrs):
         t = Template(attrs)
-        h = ULONG(0)
+        h, seed = self._hvar()
         rv = self.lib.C_DeriveKey(s, mech.ptr, base, t.ptr, t.n, C.byref(h))
-        return rv, h.value
+        return rv, self._hout(rv, h, seed)
 
     # ---- operations
     def op_init(self, kind, s, mech, key=None):
